@@ -3,6 +3,7 @@ import ast
 import os
 import struct
 
+from .. import rules_cover
 from .. import expr as X
 from .. import query as Q
 from .. import facts
@@ -27,9 +28,12 @@ def run(ck, progs):
     ck.rule("C20.7", "as many node records as thread records on every rank: in stats_on_gvt the per-thread record is written whenever a statistics "
                      "file was requested and the node record under that same condition by the thread elected with `rid` — neither depends on the "
                      "rank, the GVT value or the log level")
+    ck.rule("C20.8", "every thread's records reach the file: each loop over the per-thread temporary files (final write, transfer to rank 0, "
+                     "creation, closing) visits every thread 0..n-1 (loop header evaluated for 1..8 threads)")
     for cfg, P in progs.items():
         _transfer(ck, P, cfg)
         _parity(ck, P, cfg)
+        rules_cover.check_array_loops(ck, P, "C20.8", "log/stats.c", "stats_tmps", "global_config.n_threads", 3, "thread")
         _reader_writer(ck, P, cfg)
         _names(ck, P, cfg)
         _bumps(ck, P, cfg)
